@@ -166,6 +166,8 @@ def run(tier):
                            timeout=timeout, mem_gb=20, meta={'bound': L})
     jobs.append(job('json_roundtrip', 'h_json_roundtrip', Ls, 2 * Ls + 2))
     jobs.append(job('json_unescape_any', 'h_json_unescape_any', Ls + 2, Ls + 2))
+    jobs.append(job('tojson_atom', 'h_tojson_atom', Ls, 2 * Ls + 4))
+    jobs.append(job('tojson_key', 'h_tojson_key', Ls, 2 * Ls + 12))
     jobs.append(job('json_walk_tokens', 'h_json_walk_tokens', Lw, Lw + 2, {'WALK_TOKENS': None}))
     jobs.append(job('jsmn_structure', 'h_jsmn_structure', Lj, Lj + 2))
     with ThreadPoolExecutor(len(jobs)) as ex:
@@ -184,7 +186,7 @@ def run(tier):
             tr = f.get('trace')
             data = witness_bytes(tr)
             toks = witness_tokens(tr) if r['name'] == 'json_walk_tokens' else None
-            mode = 'rt' if r['name'] == 'json_roundtrip' else 'parse'
+            mode = 'rt' if r['name'] in ('json_roundtrip', 'tojson_atom', 'tojson_key') else 'parse'
             note = ''
             if toks:
                 t2 = text_from_tokens(toks, len(data) if data is not None else None)
